@@ -68,7 +68,8 @@ def ledger(w):
     # times the runner accounting recorded (cool-downs are measured from them): simulated time, like every other
     contexts = sorted(getattr(w, "_ctx", []))
     cleared = [[cm.market_id, cm.profit, cm.bet_count, cm.commission] for e in w.recorder.events if type(e).__name__ == "ClearedMarketsEvent" for cm in e.event.orders]
-    return dict(orders=out, log=refused, cleared=cleared, contexts=contexts)
+    seen = [[st.name, [[m, p] for (m, p) in st.seen]] for st in w.strategies]
+    return dict(orders=out, log=refused, cleared=cleared, contexts=contexts, seen=seen)
 
 
 def kw(**o):
@@ -148,6 +149,19 @@ def isolation_off():
 def limits_and_cooldowns():
     a = {(0, 0): [L.P("XB", trade_kw=dict(reset_seconds=1.5))], (0, 1): [L.P("XB", trade_kw=dict(reset_seconds=1.5))], (0, 3): [L.P("PBn", trade_kw=dict(reset_seconds=1.5))], (0, 4): [L.P("PBn")]}
     return simx.SimWorld([(simx.MarketSpec(book0=L.BOOK0), T(["Q", "Q", "T21", "Q", "SUS", "CL"], 500))], [dict(script=a, kw=dict(max_live_trade_count=1, max_trade_count=3))])
+
+
+@sc
+def listener_filters():
+    """strategies with listener filters (time to start, in-play, in-play window) on one market"""
+    ticks = [[3000, L.EVENTS["Q"]], [3000, L.EVENTS["Q"]], [3000, L.EVENTS["IP"]], [3000, L.EVENTS["Q"]], [3000, L.EVENTS["Q"]], [3000, L.EVENTS["CL"]]]
+    s = [
+        dict(script={}, name="all", kw=kw()),
+        dict(script={}, name="s2s", kw=kw(), listener_kwargs={"seconds_to_start": 5}),
+        dict(script={}, name="pre", kw=kw(), listener_kwargs={"inplay": False, "seconds_to_start": 8}),
+        dict(script={}, name="ip", kw=kw(), listener_kwargs={"inplay": True, "max_inplay_seconds": 4}),
+    ]
+    return simx.SimWorld([(simx.MarketSpec(book0=L.BOOK0, market_time_offset_s=10), ticks)], s)
 
 
 @sc
